@@ -4,6 +4,7 @@ import (
 	"fmt"
 	"go/token"
 	"go/types"
+	"os"
 	"strings"
 
 	"golang.org/x/tools/go/ssa"
@@ -11,14 +12,14 @@ import (
 
 func init() {
 	register("C19", "Decides structural necessary conditions of 'the witness only cosigns a forward-moving, consistent history per log': "+
-		"(R1) the only SQL writes of the witness are CREATE TABLE in New and the INSERT OR REPLACE of (logID, sth) in setSTH, which commits; setSTH is called only from Update, Commit only from setSTH, the stored STH is read by logID, and db/sk/Logs are written only by New; "+
-		"(R2) the decision table of Update over {log known, candidate parses, tx opens, stored row read / NotFound, stored STH parses, size order, roots equal, proof verifies, store, sign}: setSTH executes exactly when the log is known, the candidate verified and either nothing is stored (trust on first use) or the candidate is strictly larger and the consistency proof verified; equal size ⇒ no write, error iff roots differ; smaller ⇒ error; the three outcomes of the read (row read / nothing stored / read failed) are told apart by the nil test of the read error or by its status code (OK, NotFound), and getLatestSTH answers NotFound only when the scan reported sql.ErrNoRows — every other failure of the read keeps a code that Update refuses, so a transient read failure is never taken for first use; "+
-		"(R3) VerifyConsistency gets (hasher, prev.TreeSize, next.TreeSize, proof, prev root, next root) in that order, the equal-size test compares the two roots, setSTH stores the very bytes that were parsed under the requested log ID through the transaction that read the previous STH; "+
+		"(R1) the only SQL writes of the witness are CREATE TABLE in New and the INSERT OR REPLACE of (logID, sth) in setSTH; a nil result of setSTH means Commit on the transaction it wrote through returned nil (the Exec failure, Commit's own result, or a return behind a Commit tested nil); setSTH is called only inside Update's decision procedure (Update itself or a function literal of Update called where it is written — what a helper with a deferred call becomes), Commit only from setSTH, the stored STH is read by logID, and db/sk/Logs are written only by New; "+
+		"(R2) the decision table of Update over {log known, candidate parses, tx opens, stored row read / NotFound, stored STH parses, size order, roots equal, proof verifies, store, sign}: setSTH executes exactly when the log is known, the candidate verified and either nothing is stored (trust on first use) or the candidate is strictly larger and the consistency proof verified; equal size and another root ⇒ no write and FailedPrecondition; equal size and equal root ⇒ either nothing is written and the held STH is answered, or the candidate (a validly signed re-issue of the held tree head: it came out of parse) replaces it and what follows the write is the outcome of an accepted update; smaller ⇒ error; every store site is judged under every class; where the write sits in a store unit (a function literal of Update called on the spot that opens the transaction, stores and cosigns) the unit has its own table: it reads the row again through its transaction and writes only if the row is unchanged with respect to what the decision was made on — still absent for first use, byte-equal to the bytes the held tree head was decoded from otherwise — returns (signSTH(candidate), nil) only after store and sign succeeded and (nil, non-nil error) on every other path, and Update hands that outcome on as it is; the three outcomes of the read (row read / nothing stored / read failed) are told apart by the nil test of the read error or by its status code (OK, NotFound), and getLatestSTH answers NotFound only when the scan reported sql.ErrNoRows — every other failure of the read keeps a code that Update refuses, so a transient read failure is never taken for first use; "+
+		"(R3) VerifyConsistency gets (hasher, prev.TreeSize, next.TreeSize, proof, prev root, next root) in that order, the equal-size test compares the two roots, setSTH stores the very bytes that were parsed under the requested log ID, and the decision is made on the row as it is in the writing transaction: the previous STH is read through the transaction every direct setSTH call writes through, or the store unit compares the row inside its own transaction (then the first read only has to come from the witness's database); "+
 		"(R4) every return of Update is (nil, error) for hard refusals, (held raw STH, FailedPrecondition) for stale/inconsistent candidates, (held raw STH, nil) for an identical one and signSTH(candidate) only after a successful store; GetSTH returns signSTH(parse(stored bytes)); "+
-		"(R5) a verified tree head for (raw bytes, log ID) is an STH decoded from those bytes (JSON), whose log ID is absent (then filled in) or equal to the requested one, whose log signature the verifier w.Logs[logID] accepted over that same STH, and which nothing writes afterwards; parse returns only such a tree head, for a configured log; Update binds exactly two (the candidate from the request bytes, the held one from the stored row) and GetSTH one, each as parse(w, bytes, logID) or with the three checks written out in place — the decision tables of R2 take the outcome of either shape, and for the written-out shape every single check (not JSON, log ID undecodable, another log, bad log signature) is a refusal class of its own: with that check failed no setSTH / signSTH executes on ANY path, first use included; signSTH signs tls.Marshal(*sth) with the witness key (SHA-256) and embeds the same *sth; the witness verifier checks over tls.Marshal(sth.SignedTreeHead) and accepts only if some signature verified; "+
+		"(R5) a verified tree head for (raw bytes, log ID) is an STH decoded from those bytes (JSON), whose log ID is absent (then filled in) or equal to the requested one, whose log signature the verifier w.Logs[logID] accepted over that same STH, and which nothing writes afterwards (a function that only reads through the pointer it is handed may receive it); parse returns only such a tree head, for a configured log — every nil-error return of parse lies behind an accepting VerifySTHSignature, or behind tests which establish that an entry of ONE map field of the witness is present and equal, component by component, to this STH (whole-struct ==, field-wise ==, or the STH-derived struct as key of a set; through helpers, function literals and && chains), where the compared components cover every field VerifySTHSignature reads (read off its SSA: version, timestamp, size, root, signature algorithm and bytes) unchanged or under an injective conversion, the entry is looked up under the requested log ID, every write of an entry builds each component the same way from a tree head verified for the log ID it is filed under (the STH parse just verified, unreachable when the check refused; or parameters that every caller binds to a tree head Update verified and its log ID), the map field is assigned only by New and used only as a map, and its accesses hold the witness's mutex; Update binds exactly two (the candidate from the request bytes, the held one from the stored row) and GetSTH one, each as parse(w, bytes, logID) or with the three checks written out in place — the decision tables of R2 take the outcome of either shape, and for the written-out shape every single check (not JSON, log ID undecodable, another log, bad log signature) is a refusal class of its own: with that check failed no setSTH / signSTH executes on ANY path, first use included; signSTH signs tls.Marshal(*sth) with the witness key (SHA-256) and embeds the same *sth; the witness verifier checks over tls.Marshal(sth.SignedTreeHead) and accepts only if some signature verified; "+
 		"(R6) HTTP update: FailedPrecondition ⇒ non-200 status and the held STH as body, other errors ⇒ error page without the body, success ⇒ body; getSTH writes nothing on error; "+
 		"(R7) the log map pairs LogID = base64(SHA-256(DER of PubKey)) with the verifier built from that same PubKey, and that map becomes w.Logs. "+
-		"NOT covered: transaction isolation under concurrent Updates (SQLite / database/sql semantics; Main's SetMaxOpenConns(1) is not checked), the proof verifier and signature primitives themselves, JSON/TLS encodings, that the bytes in the table were put there by this code.",
+		"NOT covered: transaction isolation under concurrent Updates (SQLite / database/sql semantics: that a transaction which read the row and then writes it is serialised against other writers; Main's SetMaxOpenConns(1) is not checked), termination of a retry loop around a store unit, the order of timestamps among tree heads of equal size and root, eviction or staleness of remembered tree heads (an entry is a record of a verified STH, not of what is stored), the proof verifier and signature primitives themselves, JSON/TLS encodings, that the bytes in the table were put there by this code.",
 		runC19)
 }
 
@@ -54,6 +55,11 @@ func runC19(r *Run) {
 	c19Sig(r)
 	c19HTTP(r)
 	c19Config(r)
+	if os.Getenv("C19_OBLS") != "" { // dev: list the obligations with their details
+		for _, o := range r.Obls {
+			fmt.Fprintf(os.Stderr, "%v %s @%s: %s\n", o.OK, o.Key, o.Where, o.Detail)
+		}
+	}
 }
 
 func c19InWitnessTree(fn string) bool { return strings.Contains(fn, "internal/witness/") }
@@ -117,12 +123,10 @@ func c19Who(r *Run) {
 	if !okRead {
 		r.Check("sql-read@getLatestSTH:found", false, "-", "undecided: the SELECT of getLatestSTH was not found")
 	}
-	r.ExpectCallers("who:setSTH", c19Set, c19Wit+".Update")
-	if cs := r.CallersOf(c19Set)[c19Wit+".Update"]; len(cs) != 2 {
-		r.Fail("who:setSTH.sites", "-", fmt.Sprintf("Update calls setSTH at %d sites (first use and verified extension expected)", len(cs)))
-	} else {
-		r.Pass("who:setSTH.sites", r.Where(cs[0]), "Update calls setSTH at 2 sites")
-	}
+	// the row is written only inside Update's decision procedure: by Update itself or by a function
+	// literal of Update that is called where it is written (what a helper with a deferred call
+	// becomes); WHEN each of those sites may execute is decided by R2's table (rules_t8c19.go)
+	c19WhoStores(r)
 	commits := r.CallersOf("(*sql.Tx).Commit")
 	n := 0
 	for _, fn := range keysOf(commits) {
@@ -162,15 +166,7 @@ func c19Who(r *Run) {
 			}
 			commit := asInstrs(CallsTo(fn, "(*sql.Tx).Commit"))
 			r.FailEdge(fn, "setSTH", EdgeSpec{Name: "exec-failed", Atom: nilAtom("(*sql.Tx).Exec*(*)#1"), Bad: "non", Want: wantErr(false), Unreach: commit})
-			okc := false
-			for _, ret := range Returns(fn) {
-				if d := r.D.D(RetVals(ret)[0]); d == "(*sql.Tx).Commit(p1)" {
-					okc = true
-				} else if errKind(RetVals(ret)[0]) != "non" {
-					r.Fail("setSTH:returns", r.Where(ret), "returns "+d+" (must be the Exec failure or Commit's result)")
-				}
-			}
-			r.Check("setSTH:commit-result", okc && len(commit) == 1, r.FnPos(fn), "setSTH returns the result of tx.Commit() on the transaction it wrote through")
+			c19SetSTHResult(r, fn, commit)
 		}
 	}
 }
